@@ -40,10 +40,16 @@ impl DirectNode {
 			pool: Arc::new(Mutex::new(vec![])),
 		}
 	}
+	/// make the k-th node call from now fail (0 = none)
+	pub fn arm_failure(&self, k: u64) {
+		self.calls.store(0, Ordering::SeqCst);
+		self.fail_at.store(k, Ordering::SeqCst);
+	}
 	fn chk(&self) -> Result<(), libwallet::Error> {
 		let n = self.calls.fetch_add(1, Ordering::SeqCst) + 1;
 		let f = self.fail_at.load(Ordering::SeqCst);
-		if f != 0 && n >= f {
+		// exactly the f-th call (counted from the last `arm_failure`) fails
+		if f != 0 && n == f {
 			return Err(libwallet::Error::ClientCallback("node call failed".into()));
 		}
 		if self.up.load(Ordering::SeqCst) {
